@@ -53,6 +53,7 @@ package verifh
 //   no-tree                  no tree although the root has relationships
 
 import (
+	"errors"
 	"context"
 	"encoding/json"
 	"fmt"
@@ -859,6 +860,8 @@ func runC09Case(run *runner, idx int64, c *c09Case, seen map[string]int) string 
 		}
 	}
 
+	// --- K3: a storage failure during an expansion is an error, never a smaller tree
+	m.faultPhase(env, global)
 	// --- K2: differential against the real check engine
 	if !cfgHasRewrite(c.Cfg) {
 		m.differential(env)
@@ -875,6 +878,120 @@ func runC09Case(run *runner, idx int64, c *c09Case, seen map[string]int) string 
 		return "violation"
 	}
 	return "ok"
+}
+
+// faultPhase: on the data of the last insertion order, every root is expanded
+// once more through an engine whose storage calls are counted (N), then again
+// with the k-th storage call failing once, for sampled k in 1..N. The answer must
+// be an error or exactly the tree of the fault-free run on the same stored rows
+// (listing order is the stable shard order, so the fault-free tree is unique):
+// a tree that lost the failed page and everything after it is a violation.
+func (m *c09Mon) faultPhase(env *Env, global int) {
+	run := m.run
+	st, _, eng := env.instrumented()
+	build := func(root *ketoapi.SubjectSet, depth int, plan *faultPlan) (canon string, errText string, ok bool) {
+		ctx, cancel := context.WithTimeout(m.x.ctx, c09Timeout)
+		defer cancel()
+		st.reset(plan)
+		type res struct {
+			canon, err, pt string
+		}
+		done := make(chan res, 1)
+		go func() {
+			var rr res
+			rr.pt = guard(func() {
+				is, err := env.Reg.ReadOnlyMapper().FromSubjectSet(ctx, root)
+				if err != nil {
+					rr.err = "map: " + err.Error()
+					return
+				}
+				it, err := eng.BuildTree(ctx, is, depth)
+				if err != nil {
+					rr.err = err.Error()
+					return
+				}
+				if it == nil {
+					rr.canon = "<nil>"
+					return
+				}
+				at, err := env.Reg.ReadOnlyMapper().ToTree(ctx, it)
+				if err != nil {
+					rr.err = "totree: " + err.Error()
+					return
+				}
+				rr.canon = nodeFromAPI(at).String()
+			})
+			done <- rr
+		}()
+		select {
+		case rr := <-done:
+			if rr.pt != "" {
+				return "", "panic:" + topFrames(rr.pt, 2), true
+			}
+			return rr.canon, rr.err, true
+		case <-ctx.Done():
+			env.dirty = true
+			return "", "", false
+		}
+	}
+	injected := errors.New("verif: injected storage failure")
+	maxK := int64(run.p.pick(10, 40))
+	for ri, root := range m.c.roots {
+		if ri >= 3 {
+			break
+		}
+		d := m.c.Depths[len(m.c.Depths)-1]
+		rk := c09SetKey(root)
+		ref, e0, ok := build(root, d, nil)
+		if !ok || e0 != "" {
+			run.count("fault_phase_reference_unavailable", 1)
+			continue
+		}
+		n := st.calls()
+		if n == 0 {
+			continue
+		}
+		run.maxCounter("max_storage_calls_of_one_expansion", n)
+		var ks []int64
+		if n <= maxK {
+			for k := int64(1); k <= n; k++ {
+				ks = append(ks, k)
+			}
+		} else {
+			r := run.p.rng(m.idx, fmt.Sprintf("fault-%d", ri))
+			seen := map[int64]bool{1: true, 2: true, n: true}
+			ks = []int64{1, 2, n}
+			for int64(len(ks)) < maxK {
+				if k := 1 + r.Int64N(n); !seen[k] {
+					seen[k] = true
+					ks = append(ks, k)
+				}
+			}
+		}
+		for _, k := range ks {
+			got, e, ok := build(root, d, &faultPlan{FailAt: k, Err: injected})
+			run.eval(1)
+			switch {
+			case !ok:
+				run.inconclusive(fmt.Sprintf("idx %d: expand of %s with the %d-th storage call failing did not return within %v", m.idx, rk, k, c09Timeout))
+				return
+			case st.faulted == 0:
+				run.count("fault_position_not_reached", 1)
+			case strings.HasPrefix(e, "panic:"):
+				m.violate(fmt.Sprintf("fault/r%d/k%d", ri, k), "C09:fault:"+e, fmt.Sprintf("expand of %s panicked when its %d-th storage call failed", rk, k), nil)
+			case e != "":
+				run.count("expansions_under_fault_answered_with_error", 1)
+			case got == ref:
+				run.count("expansions_under_fault_same_tree", 1)
+			default:
+				run.count("expansions_under_fault_other_tree", 1)
+				m.violate(fmt.Sprintf("fault/r%d/k%d", ri, k), "C09:fault:partial-tree-returned-as-success",
+					fmt.Sprintf("expand of %s (depth %d, global %d): the %d-th of %d storage calls failed once and expand answered WITHOUT an error with a tree that differs from the fault-free one on the same rows", rk, d, global, k, n),
+					map[string]any{"root": rk, "depth": d, "failing_call": k, "calls": n, "fault_free_tree": trunc(ref, 2000), "tree_under_fault": trunc(got, 2000), "ops": trunc(st.opSequence(), 400)})
+			}
+		}
+	}
+	st.reset(nil)
 }
 
 func cfgHasRewrite(c *Cfg) bool {
